@@ -5,6 +5,7 @@ import (
 	"github.com/jsightapi/jsight-schema-core/json"
 	"github.com/jsightapi/jsight-schema-core/notations/jschema"
 	"github.com/jsightapi/jsight-schema-core/notations/jschema/ischema"
+	"github.com/jsightapi/jsight-schema-core/notations/jschema/ischema/constraint"
 )
 
 type JSchemaObject struct {
@@ -44,8 +45,22 @@ func (s *JSchemaObject) objectFirstLevelProperties(m map[string]ischema.Node, ut
 	s.appendPropertiesFromObject(m)
 }
 
+// rootUserTypeNames the names of the user types to which the root of the schema
+// refers.
+func (s *JSchemaObject) rootUserTypeNames() []string {
+	root := s.Inner.RootNode()
+	if c, ok := root.Constraint(constraint.TypeConstraintType).(*constraint.TypeConstraint); ok {
+		if c.Bytes().Unquote().Len() == 0 {
+			// {type: ""} isn't a reference to a user type, and the schema library
+			// takes the first byte of the name without looking at its length.
+			return nil
+		}
+	}
+	return jschema.UserTypeNamesFromEachTypeConstraint(root)
+}
+
 func (s *JSchemaObject) appendPropertiesFromShortcut(m map[string]ischema.Node, ut map[string]*jschema.JSchema) {
-	names := jschema.UserTypeNamesFromEachTypeConstraint(s.Inner.RootNode())
+	names := s.rootUserTypeNames()
 
 	for _, name := range names {
 		if ss, ok := ut[name]; ok {
@@ -88,7 +103,7 @@ func (s *JSchemaObject) TypePropertiesAST(ut map[string]*jschema.JSchema) map[st
 // parentTypeNames the names of the user types from which the root of the schema
 // takes properties: the referenced types and the types of the allOf rule.
 func (s *JSchemaObject) parentTypeNames() []string {
-	names := jschema.UserTypeNamesFromEachTypeConstraint(s.Inner.RootNode())
+	names := s.rootUserTypeNames()
 	if s.ASTNode.Rules == nil {
 		return names
 	}
